@@ -596,7 +596,7 @@ func (r *RemoteList) unlockedCollect() {
 					continue
 				}
 				u := protoV4AddrPortToNetAddrPort(v)
-				if !r.unlockedIsBad(u) {
+				if !r.unlockedIsBad(u) && r.unlockedStillAllowed(u) {
 					addrs = append(addrs, u)
 				}
 			}
@@ -615,7 +615,7 @@ func (r *RemoteList) unlockedCollect() {
 					continue
 				}
 				u := protoV6AddrPortToNetAddrPort(v)
-				if !r.unlockedIsBad(u) {
+				if !r.unlockedIsBad(u) && r.unlockedStillAllowed(u) {
 					addrs = append(addrs, u)
 				}
 			}
@@ -640,6 +640,16 @@ func (r *RemoteList) unlockedCollect() {
 	r.addrs = addrs
 	r.relays = relays
 
+}
+
+// unlockedStillAllowed re-checks a reported address against every vpn address we know for this host. Reports are
+// filtered against the single vpn address they were filed under; once a handshake taught us the other addresses in the
+// peer's certificate, lighthouse.remote_allow_ranges for those must be honoured as well.
+func (r *RemoteList) unlockedStillAllowed(u netip.AddrPort) bool {
+	if r.shouldAdd == nil || len(r.vpnAddrs) < 2 {
+		return true
+	}
+	return r.shouldAdd(r.vpnAddrs, u.Addr())
 }
 
 // unlockedSort assumes you have the write lock and performs the deduping and sorting of the address list
